@@ -287,6 +287,37 @@ func HarnessC06GRPCStatus() {
 	}
 }
 
+// HarnessC06GRPCMessage: an arbitrary Grpc-Message (truncated or malformed
+// percent escapes included) next to a failure status never crashes the client.
+//
+//verif:harness property=C06 stubs=json,wire
+func HarnessC06GRPCMessage() {
+	web := nondetBool("web")
+	m := nondetString("grpcMessage", bound("grpcMessage", 5, 6))
+	for i := 0; i < len(m); i++ {
+		assume(m[i] > 0x20 && m[i] <= 0x7e && m[i] != ':') // what a header value carries unchanged
+	}
+	st := http.Header{"Grpc-Status": {"9"}}
+	if m != "" {
+		st["Grpc-Message"] = []string{m}
+	}
+	header := c06GRPCHeader(web)
+	trailer := http.Header{}
+	var body []byte
+	if web {
+		block := "grpc-status: 9\r\n"
+		if m != "" {
+			block += "grpc-message: " + m + "\r\n"
+		}
+		body = refFrame(0x80, []byte(block))
+	} else {
+		trailer = st
+	}
+	err := c06GRPCCall(web, 200, header, trailer, body)
+	check(err != nil && CodeOf(err) == CodeFailedPrecondition, "the failure status is reported whatever the Grpc-Message looks like")
+	c06CheckSafe(err, "gRPC message")
+}
+
 // HarnessC06GRPCBody: arbitrary body bytes under an OK status block.
 //
 //verif:harness property=C06 stubs=json,wire
